@@ -28,3 +28,8 @@ def run(ctx) -> None:
     flags_end_to_end(ctx, "C04.N4.argument-under-own-flags", [
         ("$not of an instruction, then an instruction", [{"$not": [{Sym("M1"): [Sym("O1")]}]}, {Sym("M2"): [Sym("O2")]}]),
         ("operand-level $not", [{Sym("M1"): [{"$not": [Sym("O1")]}, Sym("O2")]}])])
+    # Z: end to end on stream templates: the compiled regex of whole rules, under each flag setting, searched in token
+    # templates of the instruction stream (every instantiation at once): found exactly where the property says, else not
+    from ..models import make_interp as _mk
+    from ..streamshapes import end_to_end
+    end_to_end(ctx, _mk(ctx.p), "C04", "C04.Z.found-where-the-property-says", "C04.Z.not-found-elsewhere")
